@@ -250,6 +250,9 @@ package atree
 //@ pred stoFrameMDS(d *MapDataSlab, vr1 ref, vr2 ref) = forall id SlabID :: old(sto[id]) != nil && old(sto[id]) != vr1 && old(sto[id]) != vr2 && id != old(d.header.slabID) && !inSub(d, old(sto[id])) ==> sto[id] == old(sto[id])
 
 //@ func (m *MapDataSlab) Set(storage, b, digester, level, hkey, comparator, hip, key, value) (ks, existing, err)  serves C02 C03 C05 C06
+//@   # the request is handed down unchanged (C02: the routed child / element answers for the caller's key and value)
+//@   before[C02] hkeyElements.Set: arg_recv == m.elements && arg_address == m.header.slabID.address && arg_level == level && arg_hkey == hkey && arg_storage == storage && arg_b == b && arg_digester == digester && arg_comparator == comparator && arg_hip == hip && arg_key == key && arg_value == value
+//@   before[C02] singleElements.Set: arg_recv == m.elements && arg_address == m.header.slabID.address && arg_level == level && arg_hkey == hkey && arg_storage == storage && arg_b == b && arg_digester == digester && arg_comparator == comparator && arg_hip == hip && arg_key == key && arg_value == value
 //@   requires wfMDSG(m) && storage != nil && digester != nil && comparator != nil && key != nil && value != nil && m.header.size <= 4000000000
 //@   assume inSub(m, m.elements) && m.header.slabID != SlabIDUndefined && valueRoot(key) != m && valueRoot(value) != m
 //@        because "frame assumption F: the element list belongs to the subtree of its leaf; a leaf has an identifier; the key / value being stored is not the container that owns leaf m"
@@ -260,7 +263,7 @@ package atree
 //@   ensures[C05] err == nil && level == 0 && old(hkFit(mdsHk(m))) ==> hkFit(mdsHk(m))
 //@   ensures[C05] err == nil && level == 0 ==> m.header.size <= old(m.header.size) + maxInlineMapElementSize + 8
 //@   ensures[C02] err == nil ==> len(mdsHk(m).hkeys) >= 1 && m.header.firstKey == ite(hkey < old(m.header.firstKey) || old(len(mdsHk(m).hkeys)) == 0, hkey, old(m.header.firstKey))
-//@   ensures[C02 C03] err == nil && !m.inlined ==> has(stored, m) && sto[m.header.slabID] == m
+//@   ensures[C02 C03 C08] err == nil && !m.inlined ==> has(stored, m) && sto[m.header.slabID] == m
 //@   ensures[C09] stoFrameMDS(m, valueRoot(key), valueRoot(value))
 //@   ensures[C18] err != nil ==> m.elements == old(m.elements) && m.header.slabID == old(m.header.slabID) && categorised(err)
 //@   # packaged: a plain first-level leaf stays a plain leaf (possibly over the size limit, which the parent repairs by splitting it)
@@ -272,6 +275,9 @@ package atree
 //@        as(valueRoot(value), *ArrayDataSlab).header, as(valueRoot(value), *ArrayDataSlab).inlined, as(valueRoot(value), *MapDataSlab).header, as(valueRoot(value), *MapDataSlab).inlined
 
 //@ func (m *MapDataSlab) Remove(storage, digester, level, hkey, comparator, key) (k, v, err)  serves C02 C03 C05 C06
+//@   # the request is handed down unchanged (C02: the routed child / element answers for the caller's key and value)
+//@   before[C02] hkeyElements.Remove: arg_recv == m.elements && arg_level == level && arg_hkey == hkey && arg_storage == storage && arg_digester == digester && arg_comparator == comparator && arg_key == key
+//@   before[C02] singleElements.Remove: arg_recv == m.elements && arg_level == level && arg_hkey == hkey && arg_storage == storage && arg_digester == digester && arg_comparator == comparator && arg_key == key
 //@   requires wfMDSG(m) && storage != nil && digester != nil && comparator != nil && m.header.size <= 4000000000
 //@   assume inSub(m, m.elements) && m.header.slabID != SlabIDUndefined because "frame assumption F: the element list belongs to the subtree of its leaf; a leaf has an identifier"
 //@   ensures[C06] err == nil ==> m.elements == old(m.elements) && m.inlined == old(m.inlined) && m.extraData == old(m.extraData) && m.anySize == old(m.anySize) &&
@@ -280,7 +286,7 @@ package atree
 //@   ensures[C06] err == nil ==> hkSized(mdsHk(m))
 //@   ensures[C05] err == nil && old(hkFit(mdsHk(m))) ==> hkFit(mdsHk(m)) && m.header.size <= old(m.header.size) + maxInlineMapElementSize
 //@   ensures[C02] err == nil ==> (len(mdsHk(m).hkeys) >= 1 ==> m.header.firstKey >= old(m.header.firstKey)) && (len(mdsHk(m).hkeys) == 0 ==> m.header.firstKey == 0)
-//@   ensures[C02 C03] err == nil && !m.inlined ==> has(stored, m) && sto[m.header.slabID] == m
+//@   ensures[C02 C03 C08] err == nil && !m.inlined ==> has(stored, m) && sto[m.header.slabID] == m
 //@   ensures[C09] stoFrameMDS(m, nil, nil)
 //@   ensures[C18] err != nil ==> m.elements == old(m.elements) && m.header.slabID == old(m.header.slabID) && categorised(err)
 //@   ensures[C05 C06] err == nil && old(wfMDS(m)) ==> wfMDS(m)
@@ -311,7 +317,7 @@ package atree
 //@   ensures[C09] err == nil ==> sto[as(m.root, *MapMetaDataSlab).header.slabID] == m.root && as(m.root, *MapMetaDataSlab).header.slabID != SlabIDUndefined
 //@   ensures[C09] err == nil ==> mDistinct(as(m.root, *MapMetaDataSlab))
 //@   ensures[C09] err == nil ==> mAgree(as(m.root, *MapMetaDataSlab))
-//@   ensures[C02 C03] err == nil ==> has(stored, m.root) && has(stored, sto[as(m.root, *MapMetaDataSlab).childrenHeaders[0].slabID]) && has(stored, sto[as(m.root, *MapMetaDataSlab).childrenHeaders[1].slabID])
+//@   ensures[C02 C03 C08] err == nil ==> has(stored, m.root) && has(stored, sto[as(m.root, *MapMetaDataSlab).childrenHeaders[0].slabID]) && has(stored, sto[as(m.root, *MapMetaDataSlab).childrenHeaders[1].slabID])
 //@   modifies m.root, MapDataSlab.elements, MapDataSlab.header, MapDataSlab.next, MapDataSlab.extraData, hkeyElements.*, singleElements.*,
 //@        MapMetaDataSlab.childrenHeaders, MapMetaDataSlab.header, MapMetaDataSlab.extraData, ghost.sto, ghost.issued, ghost.stored, ghost.touched, alloc
 
@@ -325,5 +331,5 @@ package atree
 //@        as(m.root, *MapDataSlab).extraData == old(as(m.root, *MapMetaDataSlab).extraData) && !as(m.root, *MapDataSlab).inlined
 //@   ensures[C06] err == nil && is(m.root, *MapMetaDataSlab) ==> as(m.root, *MapMetaDataSlab).extraData == old(as(m.root, *MapMetaDataSlab).extraData)
 //@   ensures[C09] err == nil ==> sto[childID] == nil && sto[mhdrOf(m.root).slabID] == m.root
-//@   ensures[C02 C03] err == nil ==> has(stored, m.root)
+//@   ensures[C02 C03 C08] err == nil ==> has(stored, m.root)
 //@   modifies m.root, MapDataSlab.header, MapDataSlab.extraData, MapMetaDataSlab.header, MapMetaDataSlab.extraData, ghost.sto, ghost.issued, ghost.stored, ghost.touched, alloc
